@@ -17,8 +17,9 @@ warnings.simplefilter("ignore")
 from pymablock import block_diagonalize
 from pymablock.series import zero, one
 
-def gen(rnd):
+def gen(rnd, nh_only=False):
     N = rnd.randint(4, 8); cplx = rnd.random() < 0.5; herm = rnd.random() < 0.65
+    if nh_only: herm = False; cplx = cplx or rnd.random() < 0.5       # (C05 stream: non-Hermitian mode, complex levels more often)
     rng = np.random.default_rng(rnd.randrange(2**31))
     def rand(shape): return rng.normal(size=shape) + (1j * rng.normal(size=shape) if cplx else 0)
     ev = rng.choice(np.arange(-12, 13), size=N, replace=False).astype(float) + rng.uniform(-0.2, 0.2, size=N)
@@ -63,11 +64,11 @@ def dense(v, shape):
     if hasattr(v, "matmat") and not isinstance(v, np.ndarray): v = v @ np.eye(v.shape[1])
     return np.asarray(v, dtype=complex).reshape(shape)
 
-def main(seed, ncases, driver, out):
+def main(seed, ncases, driver, out, mode="all"):
     failures = []; dist = {}; samples = []; evals = 0; distinct = 0; worst = {"direct": 0.0, "kpm": 0.0}
     for c in range(ncases):
         if skip(c): continue
-        rnd = case_rnd(seed, c); P = gen(rnd); N = P["N"]; R, L = P["R"], P["L"]; herm = P["herm"]
+        rnd = case_rnd(seed, c); P = gen(rnd, mode == "nh"); N = P["N"]; R, L = P["R"], P["L"]; herm = P["herm"]
         H = {(0,): sparse.csr_array(P["H0"]), (1,): sparse.csr_array(P["H1"])}
         if P["H2"] is not None: H[(2,)] = sparse.csr_array(P["H2"])
         rest = list(range(P["dA"], N))
@@ -114,4 +115,4 @@ def main(seed, ncases, driver, out):
                "samples": samples, "worst_abs_error": max(worst.values()), "extra": {"worst_relative_error": worst}}, open(out, "w"), default=str)
 
 if __name__ == "__main__":
-    main(int(sys.argv[1]), int(sys.argv[2]), sys.argv[3], sys.argv[4])
+    main(int(sys.argv[1]), int(sys.argv[2]), sys.argv[3], sys.argv[4], *sys.argv[5:6])
